@@ -131,7 +131,7 @@ def _stop_expand(f):
 
 def check(run, ctx):
     roots = loop_entry_points(ctx)
-    run.count('R1', len(roots), 45, 'event-loop entry points')
+    run.count('R1', len(roots), 30, 'event-loop entry points')
     seen = ctx.cg.reachable(roots, stop=_stop_expand, precise_only=True)
     run.extra['entry_points'] = len(roots)
     run.extra['functions_reachable_from_loop'] = len(seen)
@@ -161,7 +161,7 @@ def r1(run, ctx, seen):
                 path=ctx.cg.chain(seen, key))
         if not bc:
             run.ok('R1', 'no blocking primitive in %s' % f.qualname)
-    run.count('R1', n, 100, 'functions analysed for blocking calls')
+    run.count('R1', n, 60, 'functions analysed for blocking calls')
 
 
 def _loop_has_variant(ctx, f, cfg, t):
@@ -223,7 +223,7 @@ def r2(run, ctx, seen):
                           % norm_text(t.ast)[:60], f, t.ast,
                           'a loop reachable from the event loop can run without bound and '
                           'without yielding: %s' % why, path=ctx.cg.chain(seen, key))
-    run.count('R2', n, 3, 'while loops reachable from the loop thread')
+    run.count('R2', n, 2, 'while loops reachable from the loop thread')
 
 
 def r3(run, ctx):
@@ -234,7 +234,7 @@ def r3(run, ctx):
             nm = c.attr('name')
             if nm is not None and astq.const_value(nm):
                 cmds[astq.const_value(nm)] = c
-    run.count('R3', len(cmds), 20, 'registered commands')
+    run.count('R3', len(cmds), 15, 'registered commands')
     from rules.common import mutator_nodes
     for name in READ_ONLY:
         if name not in cmds:
@@ -313,4 +313,4 @@ def r5(run, ctx):
                 run.check('R5', astq.call_is_yielded(s.node, s.call), 'the loop sleep is '
                           'awaited', f, s.node.ast, 'a tornado_sleep is not yielded: the '
                           'coroutine does not wait at all')
-    run.count('R5', n, 5, 'tornado_sleep call sites in supervisor coroutines')
+    run.count('R5', n, 3, 'tornado_sleep call sites in supervisor coroutines')
